@@ -47,6 +47,10 @@ type c9result struct {
 	problems int
 	changed  bool // at least one result differs from the old entry
 	full     bool // every result equals the planned new entry
+
+	// Raw observations, for other oracles over the same executions (C18 leg).
+	results []*core.Entry
+	post    map[string]finfo
 }
 
 // runC9 executes one case in world w and applies the C09 oracle.
@@ -117,6 +121,8 @@ func runC9(w *world, c c9case, verbose func(string, ...any)) c9result {
 		verbose("scan after: %s", describe(after.Content))
 		verbose("walk after: %s", describe(entryFromSnapshot(post, "")))
 	}
+
+	res.results, res.post = results, post
 
 	var bad []string
 	if len(results) != len(changes) {
